@@ -1,5 +1,6 @@
 //! vengine <ID> [quick|thorough]  |  vengine <ID> --replay <file>
 mod alloc;
+mod bfs;
 mod builders;
 mod faults;
 mod graphs;
